@@ -158,16 +158,25 @@ def main():
             undec.append(f"imported contract {k} has no proving function in unit {k[0]}")
 
     # resource-out policy (DESIGN 2.4): an obligation whose *text changed* since the baseline lock and that now
-    # exhausts the resource limit although the baseline discharged it cheaply counts as failed ("passed on the
-    # unchanged tree and now fails, solver reason: resource limit"); on unchanged text it stays undecided (flaky).
+    # exhausts the resource limit although the baseline discharged it cheaply is a *suspect*: the replay stage
+    # searches a concrete failing input against the real code; only if one is found is it reported as a violation
+    # (with that input). Without a confirmed input it stays undecided (exit 2) -- never an alarm.
     base = load_baseline()
     for (n, mod, mm, fm, v) in wanted:
         if v and v["status"] == "undecided" and v.get("errors") and all(e["kind"] == "rlimit" for e in v["errors"]):
             b = base.get(obl_key(n, mm, fm))
             if b and fm.get("sha256") and b.get("sha256") != fm.get("sha256"):
-                v["status"] = "failed"
-                v["errors"].append(dict(kind="verif", title=f"resource limit exceeded on changed text (baseline used rlimit {b.get('rlimit')})",
-                                        text="", lines=[], cover=False))
+                cex = None
+                try:
+                    from vx import replay as vreplay
+                    cex = vreplay.search(pid, n, mm, fm, seed)
+                except Exception as e:
+                    cex = None
+                if cex and cex.get("input"):
+                    v["status"] = "failed"
+                    v["cex"] = cex
+                    v["errors"].append(dict(kind="verif", title=f"resource limit exceeded on changed text (baseline used rlimit {b.get('rlimit')}); failing input found by replay",
+                                            text=json.dumps(cex)[:1500], lines=[], cover=False))
     failed = [(n, mod, mm, fm, v) for (n, mod, mm, fm, v) in wanted if v and v["status"] == "failed"]
     failed += [(o["unit"], "", dict(file=o.get("file", ""), header=None), dict(fn=o["name"]),
                 dict(status="failed", errors=[dict(kind="verif", title=o.get("detail", ""), text=o.get("detail", ""))]))
@@ -277,12 +286,13 @@ def main():
         rep = dict(property=pid, failed_obligations=[])
         found_any = False
         for (n, mod, mm, fm, v, oid) in real_fail:
-            cex = None
-            try:
-                from vx import replay as vreplay
-                cex = vreplay.search(pid, n, mm, fm, seed)
-            except Exception as e:  # replay is best effort
-                cex = dict(error=str(e))
+            cex = v.get("cex")
+            if cex is None:
+                try:
+                    from vx import replay as vreplay
+                    cex = vreplay.search(pid, n, mm, fm, seed)
+                except Exception as e:  # replay is best effort
+                    cex = dict(error=str(e))
             if cex and cex.get("input"):
                 found_any = True
             if any(re_.search(r"simplifies to false", e.get("title", "")) for e in v.get("errors", [])):
